@@ -24,6 +24,10 @@ var c18Leaves = []reflect.Type{
 // the reduced leaf set used inside structs
 var c18FieldLeaves = []reflect.Type{reflect.TypeOf(false), reflect.TypeOf(int(0)), reflect.TypeOf(uint8(0)), reflect.TypeOf(float64(0)), reflect.TypeOf(""), reflect.TypeOf([]byte(nil)), reflect.TypeOf(time.Time{})}
 
+// the leaf set of the 3-constructor family of the thorough tier
+var c18DeepLeaves = []reflect.Type{reflect.TypeOf(int(0)), reflect.TypeOf(""), reflect.TypeOf(time.Time{})}
+var c18Deep bool
+
 var c18TagsA = []reflect.StructTag{`json:"a"`, ``}
 var c18TagsB = []reflect.StructTag{`json:"b,omitempty"`, `json:"-"`, `json:"a2"`}
 
@@ -32,6 +36,9 @@ func c18GenType(x *explore.X, budget *int, inStruct bool) reflect.Type {
 	leaves := c18Leaves
 	if inStruct {
 		leaves = c18FieldLeaves
+	}
+	if c18Deep {
+		leaves = c18DeepLeaves
 	}
 	kinds := 1 // leaf
 	if *budget > 0 {
@@ -61,6 +68,27 @@ func c18GenType(x *explore.X, budget *int, inStruct bool) reflect.Type {
 		b := c18GenType(x, budget, true)
 		return reflect.StructOf([]reflect.StructField{{Name: "A", Type: a, Tag: ta}, {Name: "B", Type: b, Tag: tb}})
 	}
+}
+
+var c18DeepTypes []reflect.Type
+
+func c18DeepFieldTypes() []reflect.Type {
+	if c18DeepTypes != nil {
+		return c18DeepTypes
+	}
+	unary := []func(reflect.Type) reflect.Type{reflect.PointerTo, reflect.SliceOf, func(t reflect.Type) reflect.Type { return reflect.MapOf(reflect.TypeOf(""), t) }}
+	level := []reflect.Type{reflect.TypeOf(0), reflect.TypeOf(""), reflect.TypeOf(false)}
+	for depth := 0; depth < 2; depth++ {
+		var next []reflect.Type
+		for _, t := range level {
+			for _, u := range unary {
+				next = append(next, u(t))
+			}
+		}
+		c18DeepTypes = append(c18DeepTypes, next...)
+		level = next
+	}
+	return c18DeepTypes
 }
 
 // c18Values returns boundary values of t; collections are non-nil; "one field varies" for structs.
@@ -237,7 +265,7 @@ func init() {
 	}
 	core.Register(&core.Check{
 		ID: "C18",
-		Rule: "unnamed Go types from the grammar T ::= leaf (16 kinds: bool, every sized int/uint, floats, string, []byte, time.Time) | *T | []T | map[string]T | struct{A T} | struct{A T; B T} with JSON tags (named, omitempty, '-', none), enumerated completely within a budget of 2 (quick) / 3 (thorough) constructors and built with reflect; " +
+		Rule: "unnamed Go types from the grammar T ::= leaf (16 kinds: bool, every sized int/uint, floats, string, []byte, time.Time) | *T | []T | map[string]T | struct{A T} | struct{A T; B T} with JSON tags (named, omitempty, '-', none), enumerated completely within a budget of 2 constructors (thorough: also 3 constructors over the leaf kinds int, string, time.Time: 175 728 types) and built with reflect; struct fields of every chain of up to two unary constructors over {int, string, bool} under every tag, alone (quick) or in pairs (thorough); " +
 			"plus 21 hand-declared named types (recursion through pointer, slice and map, mutual recursion, embedding by value and by pointer, name clash, tagged embedding, omitempty, unexported fields) with listed values. Values: boundary values per kind, collections non-nil, one field varied at a time. " +
 			"x generator options {default, UseAllExportedFields, CreateComponentSchemas}. The value's encoding/json output must validate against the generated schema after the returned component map is installed in a document and loaded. non-trivial = the type has at least one constructor",
 		Assumptions: []string{
@@ -250,15 +278,34 @@ func init() {
 		ShrinkVectors: true,
 		Body: func(r *core.Run, x *explore.X) {
 			named := c18Named()
-			family := x.Choose(2)
+			family := x.Choose(3)
 			var t reflect.Type
 			ni := 0
 			if family == 0 {
 				b := 2
-				if r.Tier == "thorough" {
+				if r.Tier == "thorough" && x.Bool() {
+					// thorough: additionally every type within 3 constructors over the reduced leaf set (7 kinds)
 					b = 3
+					c18Deep = true
+					t = c18GenType(x, &b, true)
+					c18Deep = false
+				} else {
+					t = c18GenType(x, &b, false)
 				}
-				t = c18GenType(x, &b, false)
+			} else if family == 2 {
+				// struct fields of deeper types: every chain of up to two unary constructors over {int, string, bool}
+				// (**int, *[]string, []*bool, map[string]*int, ...) under every tag, alone (quick) or next to a second such field (thorough)
+				fts := c18DeepFieldTypes()
+				a := explore.Pick(x, fts)
+				ta := explore.Pick(x, []reflect.StructTag{`json:"a"`, ``, `json:"a,omitempty"`})
+				fields := []reflect.StructField{{Name: "A", Type: a, Tag: ta}}
+				if r.Tier == "thorough" && x.Bool() {
+					b := explore.Pick(x, fts)
+					tb := explore.Pick(x, []reflect.StructTag{`json:"b"`, `json:"b,omitempty"`})
+					fields = append(fields, reflect.StructField{Name: "B", Type: b, Tag: tb})
+				}
+				t = reflect.StructOf(fields)
+				family = 0
 			} else {
 				ni = x.Choose(len(named))
 			}
